@@ -1,20 +1,41 @@
-// A-VALCONV: the `impl From<X> for Value` conversions of lib/melvm/src/value.rs that Executor::new_from_env uses.  They are repo code that is
-// NOT verified here: each is an external_body stub whose result is named by a spec function (transcribed by hand from value.rs for the scalar
-// ones; uninterpreted for Transaction / Header / Denom, whose vector layouts are not needed to state where each environment field is placed).
-pub uninterp spec fn val_of_tx(tx: Transaction) -> Value;
-pub uninterp spec fn val_of_header(h: Header) -> Value;
+// A-VALCONV: the `impl From<X> for Value` conversions of lib/melvm/src/value.rs.  The scalar / struct ones (u128, u64, [u8; 32], HashVal, Bytes, CoinID,
+// CoinData, CoinDataHeight, Header, Transaction) are EXTRACTED and proved in unit `exec` against the `from_spec` functions below (hand-written from the
+// property: field order as in value.rs).  Still assumed (external_body stubs): From<Denom> (Denom::to_bytes, melstructs), the generic iterator-based
+// From<Vec<T>> (declared for the three element types a transaction has), From<Covenant>.
+pub uninterp spec fn val_of_denom(d: Denom) -> Value;
+/// From<Vec<T>> for Value (generic, iterator-based in value.rs): assumed for the three element types a transaction has
+pub open spec fn val_vec<T>(v: Seq<T>, f: spec_fn(T) -> Value) -> Value { vvec(Seq::new(v.len(), |i: int| f(v[i]))) }
+pub open spec fn val_of_coinid(c: CoinID) -> Value { vvec(seq![vbytes(c.txhash.0.0@), vint(c.index as nat)]) }
+impl FromSpecImpl<Vec<CoinID>> for Value { open spec fn obeys_from_spec() -> bool { true } open spec fn from_spec(v: Vec<CoinID>) -> Value { val_vec(v@, |c: CoinID| val_of_coinid(c)) } }
+impl From<Vec<CoinID>> for Value { #[verifier::external_body] fn from(v: Vec<CoinID>) -> (r: Value) { unimplemented!() } }
+impl FromSpecImpl<Vec<CoinData>> for Value { open spec fn obeys_from_spec() -> bool { true } open spec fn from_spec(v: Vec<CoinData>) -> Value { val_vec(v@, |c: CoinData| val_of_coindata(c)) } }
+impl From<Vec<CoinData>> for Value { #[verifier::external_body] fn from(v: Vec<CoinData>) -> (r: Value) { unimplemented!() } }
+impl FromSpecImpl<Vec<Bytes>> for Value { open spec fn obeys_from_spec() -> bool { true } open spec fn from_spec(v: Vec<Bytes>) -> Value { val_vec(v@, |b: Bytes| vbytes(b@)) } }
+impl From<Vec<Bytes>> for Value { #[verifier::external_body] fn from(v: Vec<Bytes>) -> (r: Value) { unimplemented!() } }
+/// the spending transaction as a VM value (From<Transaction> for Value): [kind, inputs, outputs, fee, covenants, data, sigs]
+pub open spec fn val_of_tx(tx: Transaction) -> Value {
+    vvec(seq![vint((tx.kind as u8) as nat), val_vec(tx.inputs@, |c: CoinID| val_of_coinid(c)), val_vec(tx.outputs@, |c: CoinData| val_of_coindata(c)), vint(tx.fee.0 as nat),
+              val_vec(tx.covenants@, |b: Bytes| vbytes(b@)), vbytes(tx.data@), val_vec(tx.sigs@, |b: Bytes| vbytes(b@))])
+}
+/// a header as a VM value (From<Header> for Value): the eleven fields in declaration order
+pub open spec fn val_of_header(h: Header) -> Value {
+    vvec(seq![vint((h.network as u64) as nat), vbytes(h.previous.0@), vint(h.height.0 as nat), vbytes(h.history_hash.0@), vbytes(h.coins_hash.0@), vbytes(h.transactions_hash.0@),
+              vint(h.fee_pool.0 as nat), vint(h.fee_multiplier as nat), vint(h.dosc_speed as nat), vbytes(h.pools_hash.0@), vbytes(h.stakes_hash.0@)])
+}
 pub uninterp spec fn val_of_denom(d: Denom) -> Value;
 impl FromSpecImpl<u128> for Value { open spec fn obeys_from_spec() -> bool { true } open spec fn from_spec(n: u128) -> Value { vint(n as nat) } }
-impl From<u128> for Value { #[verifier::external_body] fn from(n: u128) -> (r: Value) { unimplemented!() } }
 impl FromSpecImpl<u64> for Value { open spec fn obeys_from_spec() -> bool { true } open spec fn from_spec(n: u64) -> Value { vint(n as nat) } }
-impl From<u64> for Value { #[verifier::external_body] fn from(n: u64) -> (r: Value) { unimplemented!() } }
 impl FromSpecImpl<HashVal> for Value { open spec fn obeys_from_spec() -> bool { true } open spec fn from_spec(h: HashVal) -> Value { vbytes(h.0@) } }
-impl From<HashVal> for Value { #[verifier::external_body] fn from(h: HashVal) -> (r: Value) { unimplemented!() } }
 impl FromSpecImpl<Bytes> for Value { open spec fn obeys_from_spec() -> bool { true } open spec fn from_spec(b: Bytes) -> Value { vbytes(b@) } }
-impl From<Bytes> for Value { #[verifier::external_body] fn from(b: Bytes) -> (r: Value) { unimplemented!() } }
 impl FromSpecImpl<Denom> for Value { open spec fn obeys_from_spec() -> bool { true } open spec fn from_spec(d: Denom) -> Value { val_of_denom(d) } }
 impl From<Denom> for Value { #[verifier::external_body] fn from(d: Denom) -> (r: Value) { unimplemented!() } }
 impl FromSpecImpl<Transaction> for Value { open spec fn obeys_from_spec() -> bool { true } open spec fn from_spec(t: Transaction) -> Value { val_of_tx(t) } }
-impl From<Transaction> for Value { #[verifier::external_body] fn from(t: Transaction) -> (r: Value) { unimplemented!() } }
 impl FromSpecImpl<Header> for Value { open spec fn obeys_from_spec() -> bool { true } open spec fn from_spec(h: Header) -> Value { val_of_header(h) } }
-impl From<Header> for Value { #[verifier::external_body] fn from(h: Header) -> (r: Value) { unimplemented!() } }
+impl FromSpecImpl<[u8; 32]> for Value { open spec fn obeys_from_spec() -> bool { true } open spec fn from_spec(v: [u8; 32]) -> Value { vbytes(v@) } }
+impl FromSpecImpl<CoinID> for Value { open spec fn obeys_from_spec() -> bool { true } open spec fn from_spec(c: CoinID) -> Value { val_of_coinid(c) } }
+impl FromSpecImpl<CoinData> for Value { open spec fn obeys_from_spec() -> bool { true } open spec fn from_spec(cd: CoinData) -> Value { val_of_coindata(cd) } }
+pub open spec fn val_of_coindata(cd: CoinData) -> Value { vvec(seq![vbytes(cd.covhash.0.0@), vint(cd.value.0 as nat), val_of_denom(cd.denom), vbytes(cd.additional_data@)]) }
+impl FromSpecImpl<CoinDataHeight> for Value { open spec fn obeys_from_spec() -> bool { true } open spec fn from_spec(cd: CoinDataHeight) -> Value { vvec(seq![val_of_coindata(cd.coin_data), vint(cd.height.0 as nat)]) } }
+// conversions into CatVec that value.rs relies on (dependency: catvec / tmelcrypt / bytes `From` impls; A-CATVEC)
+impl<const N: usize> From<HashVal> for CatVec<u8, N> { #[verifier::external_body] fn from(v: HashVal) -> (r: CatVec<u8, N>) ensures r@ == v.0@ { unimplemented!() } }
+impl<const N: usize> From<Bytes> for CatVec<u8, N> { #[verifier::external_body] fn from(v: Bytes) -> (r: CatVec<u8, N>) ensures r@ == v@ { unimplemented!() } }
